@@ -16,6 +16,11 @@ pub enum Xf {
     Large { path: String },
     /// append spare bytes after the last field of the box at `path`
     Spare { path: String, n: usize },
+    /// spare bytes on the box at `path`, AND the box moved to the end of the file: at every level
+    /// whose sibling order carries no meaning the box on the path becomes the last child (never
+    /// past a sibling of its own type), at top level the box holding it becomes the last box.
+    /// A reader that looks even one byte beyond a box only gets away with it while something follows.
+    SpareAtEnd { path: String, n: usize },
 }
 
 impl Xf {
@@ -26,13 +31,14 @@ impl Xf {
             Xf::Permute { .. } => "permute",
             Xf::Large { .. } => "large_header",
             Xf::Spare { .. } => "spare_bytes",
+            Xf::SpareAtEnd { .. } => "spare_bytes_at_end_of_file",
         }
     }
     pub fn target(&self) -> String {
         match self {
             Xf::InsertTop { pos, .. } => format!("top@{}", pos),
             Xf::InsertChild { path, slot, .. } => format!("{}@{}", strip_idx(path), slot),
-            Xf::Permute { path, .. } | Xf::Large { path } | Xf::Spare { path, .. } => strip_idx(path),
+            Xf::Permute { path, .. } | Xf::Large { path } | Xf::Spare { path, .. } | Xf::SpareAtEnd { path, .. } => strip_idx(path),
         }
     }
 }
@@ -180,6 +186,73 @@ pub fn apply(top: &mut Vec<BoxT>, x: &Xf) -> bool {
             }
             None => false,
         },
+        Xf::SpareAtEnd { path, n } => {
+            match find(top, path) {
+                Some(b) => b.spare = vec![0xA5; *n],
+                None => return false,
+            }
+            move_to_end(top, path);
+            true
+        }
+    }
+}
+
+/// index of the part holding the child named by path component `comp` ("type#k")
+fn child_part(b: &BoxT, comp: &str) -> Option<usize> {
+    let mut counts: std::collections::HashMap<[u8; 4], usize> = Default::default();
+    for (pi, p) in b.parts.iter().enumerate() {
+        if let Part::Child(c) = p {
+            let i = counts.entry(c.typ).or_insert(0);
+            let name = format!("{}#{}", c.name(), i);
+            *i += 1;
+            if name == comp {
+                return Some(pi);
+            }
+        }
+    }
+    None
+}
+
+fn move_to_end(top: &mut Vec<BoxT>, path: &str) {
+    let comps: Vec<&str> = path.split('/').collect();
+    // top level
+    let mut counts: std::collections::HashMap<[u8; 4], usize> = Default::default();
+    let mut at = None;
+    for (i, b) in top.iter().enumerate() {
+        let k = counts.entry(b.typ).or_insert(0);
+        if format!("{}#{}", b.name(), k) == comps[0] {
+            at = Some(i);
+        }
+        *k += 1;
+    }
+    let at = match at {
+        Some(a) => a,
+        None => return,
+    };
+    if !top[at + 1..].iter().any(|b| b.typ == top[at].typ) && &top[at].typ != b"ftyp" {
+        let b = top.remove(at);
+        top.push(b);
+    }
+    let last = top.len() - 1;
+    let mut cur: &mut BoxT = if top[last].name() == comps[0].split('#').next().unwrap_or("") { &mut top[last] } else { &mut top[at] };
+    for comp in &comps[1..] {
+        let pi = match child_part(cur, comp) {
+            Some(p) => p,
+            None => return,
+        };
+        let typ = if let Part::Child(c) = &cur.parts[pi] { c.typ } else { return };
+        let later_same = cur.parts[pi + 1..].iter().any(|p| matches!(p, Part::Child(c) if c.typ == typ));
+        let new_pi = if PERMUTABLE.iter().any(|t| **t == cur.typ) && !later_same {
+            let part = cur.parts.remove(pi);
+            cur.parts.push(part);
+            cur.parts.len() - 1
+        } else {
+            pi
+        };
+        cur = match &mut cur.parts[new_pi] {
+            Part::Child(c) => c,
+            _ => return,
+        };
     }
 }
 
@@ -203,6 +276,7 @@ pub fn enumerate(top: &[BoxT], rng: &mut Rng) -> Vec<Xf> {
         v.push(Xf::Large { path: bi.path.clone() });
         if SPARE_OK.iter().any(|t| **t == bi.typ) {
             v.push(Xf::Spare { path: bi.path.clone(), n: 1 + rng.usize_below(16) });
+            v.push(Xf::SpareAtEnd { path: bi.path.clone(), n: 1 + rng.usize_below(8) });
         }
     }
     v
